@@ -32,7 +32,8 @@ def bfs(init: Callable[[], Any],
         max_states: Optional[int] = None,
         seen: Optional[set] = None,
         start_hist: Tuple[Any, ...] = (),
-        rebuild: Optional[Callable[[Tuple[Any, ...]], Any]] = None) -> BfsResult:
+        rebuild: Optional[Callable[[Tuple[Any, ...]], Any]] = None,
+        max_violations: Optional[int] = 300) -> BfsResult:
     """init() -> fresh state object; step(obj, ev) -> NEW state object (must not mutate obj, or
     `rebuild(hist)` must be given, in which case the frontier stores histories only and objects are
     rebuilt by replay); check(obj, hist, last_event) yields (key, detail) violations.
@@ -77,6 +78,11 @@ def bfs(init: Callable[[], Any],
             if bad:
                 # a violating state is reported once and not expanded (its successors would only repeat it)
                 res.bad_states += 1
+                if max_violations is not None and len(res.violations) >= max_violations:
+                    # the run has failed anyway: do not unroll the rest of a space whose deduplication the defect may
+                    # have broken (the evidence reports what was left unexplored)
+                    res.frontier_left += len(frontier) + 1
+                    return res
                 continue
             k = canon(nxt)
             if k in seen:
